@@ -129,6 +129,7 @@ def run_property(prop, tier, seed, only=None, dump=None):
     covers = {}
     canaries = []
     callee_trusted = set()
+    disagreements = []
 
     for u in units:
         res = U.verify_unit(u, tier=tier, dump_dir=dump)
@@ -173,7 +174,7 @@ def run_property(prop, tier, seed, only=None, dump=None):
                                                             native=rf['native'], solver='all obligations discharged',
                                                             note='contract violated at run time although the proof '
                                                                  'went through: engine or model unsound'))
-                    crashes.append('%s: proved but violated natively, see %s' % (u.short, path))
+                    disagreements.append('%s: proved but violated natively, see %s' % (u.short, path))
             continue
         # ---- something is not discharged
         names = [o.name for o in failed]
@@ -246,6 +247,11 @@ def run_property(prop, tier, seed, only=None, dump=None):
             violations.append((path, ' no-failing-input-found'))
         else:
             undecided.append('%s: proof lost: %s' % (u.short, ', '.join(still)))
+
+    # a caller proved against a callee contract that the callee's code breaks is violated natively too; that
+    # is a consequence, reported at the callee -- a disagreement counts only when everything else is clean
+    if disagreements and not violations and not undecided:
+        crashes.extend(disagreements)
 
     # ---- lemmas
     for lem in lemmas:
